@@ -73,3 +73,22 @@ pub open spec fn for_values_present(f: StackFrame) -> bool {
 pub open spec fn base(f: StackFrame) -> int {
     f.bindings.block_bindings@.len() - owners(f.exprs_to_eval@)
 }
+
+pub proof fn lemma_needed_push(es: Seq<(ExpressionState, Rc<Expression>)>, x: (ExpressionState, Rc<Expression>))
+    ensures needed(es.push(x)) == needed(es) + need(x.0, *x.1),
+{
+    assert(es.push(x).drop_last() =~= es);
+}
+pub mod needed_model {
+    use super::*;
+    pub broadcast proof fn lemma_needed_push_b(es: Seq<(ExpressionState, Rc<Expression>)>, x: (ExpressionState, Rc<Expression>))
+        ensures #[trigger] needed(es.push(x)) == needed(es) + need(x.0, *x.1),
+    {
+        lemma_needed_push(es, x);
+    }
+}
+pub use needed_model::*;
+/// values on the stack that no pending `for` keeps for itself (C06/C21: value accounting of break / continue)
+pub open spec fn free_vals(f: StackFrame) -> int {
+    f.evalled_values@.len() - needed(f.exprs_to_eval@)
+}
